@@ -13,14 +13,14 @@ from vlib.runner import exc_sig
 
 ID = 'C10'
 RULE = ('history = result-table size 0..12 + list of up to 30 cursor operations (execute/re-execute with '
-        'WHERE/LIMIT variants, fetchone, fetchmany(n), fetchmany() with the current arraysize, arraysize assignment, fetchall, full/partial '
+        'WHERE/LIMIT variants, the same text with other positional / named parameters, fetchone, fetchmany(n), fetchmany() with the current arraysize, arraysize assignment, fetchall, full/partial '
         'iteration, new cursor, switch cursor, description probes) run against a list-and-position model; '
         'non-trivial = at least 3 different fetch kinds used, one fetchmany longer than the rows left while '
         'rows were left, and a re-execute on a cursor that had already delivered rows; distinct by hash of history')
 ASSUMPTIONS = ['fetchmany sizes are non-negative (DB-API leaves negative sizes undefined)',
                'whether iterating a cursor consumes rows is not fixed by the property: both are accepted']
 
-QUERIES = ['all', 'limit', 'ge', 'desc']
+QUERIES = ['all', 'limit', 'ge', 'desc', 'ge_p', 'ge_p', 'ge_n', 'between_p']
 
 
 def table_rows(n):
@@ -36,6 +36,13 @@ def query(kind, k):
         return f'SELECT rid, v FROM #t WHERE rid >= {k}', lambda rows: [r for r in rows if r[0] >= k]
     if kind == 'desc':
         return 'SELECT v, rid FROM #t ORDER BY rid DESC', lambda rows: [(v, i) for i, v in reversed(rows)]
+    # one statement text, the parameters differ from execute to execute
+    if kind == 'ge_p':
+        return 'SELECT rid, v FROM #t WHERE rid >= %s', lambda rows: [r for r in rows if r[0] >= k], (k,)
+    if kind == 'ge_n':
+        return 'SELECT rid, v FROM #t WHERE rid >= %(k)s', lambda rows: [r for r in rows if r[0] >= k], {'k': k}
+    if kind == 'between_p':
+        return 'SELECT rid, v FROM #t WHERE rid >= %s AND rid < %s', lambda rows: [r for r in rows if k // 2 <= r[0] < k], (k // 2, k)
     raise ValueError(kind)
 
 
@@ -212,15 +219,15 @@ def prop_history(sh, case):
                     m.pos += adv
                     m.delivered = m.delivered or adv > 0
             elif name in ('execute', 'conn_execute'):
-                text, expect = query(o[1], o[2])
+                text, expect, *params = query(o[1], o[2])
                 if name == 'execute':
                     if m.delivered:
                         reexec = True
-                    r = cur.execute(text)
+                    r = cur.execute(text, *params)
                     if r is not cur:
                         fails.append(('execute:return', repr(r)))
                 else:
-                    cur = conn.execute(text)
+                    cur = conn.execute(text, *params)
                     cursors.append(cur)
                     models.append(Model())
                     active = len(cursors) - 1
